@@ -550,6 +550,23 @@ impl Heap {
     }
 }
 
+/// Read-only accessors for the verification harness (feature `verif`).
+#[cfg(feature = "verif")]
+impl Heap {
+    pub fn verif_cells(&self) -> &[VCell] {
+        &self.heap
+    }
+    pub fn verif_cell_state(&self, index: usize) -> Option<State> {
+        self.heap_map.get(index)
+    }
+    pub fn verif_free_list(&self) -> &[usize] {
+        &self.free_list
+    }
+    pub fn verif_symbol_table(&self) -> &HashMap<String, usize> {
+        &self.symbol_table
+    }
+}
+
 #[cfg(test)]
 mod tests {
     use super::*;
